@@ -427,6 +427,22 @@ def run(ctx):
                             f"(lambda {v}, {w}: {b1})({w}={arg2}, {v}={arg1})", f"(lambda {v}, {w}: {b1})({arg1})", f"(lambda: e.pt)()",
                             f"(lambda {v}: {b1})(*e.xs)", f"(lambda {v}, {w}: {b1})({arg1}, {arg2})", f"(lambda {v}: (lambda {w}: {b1})({w}={v}))({arg1})"])
         cases.append((rng.choice(["Select", "SelectMany", "Where"]), shape, rng.choice(["str", "ast"])))
+    # called lambdas whose LATER argument mentions a name spelled like an EARLIER parameter (the stream's own variable e, or
+    # the parameter of an enclosing called lambda): arguments are typed in the enclosing scope, all of them, before any
+    # parameter is bound (seed C10-w7-2) - the earlier argument is of another kind (dictionary literal, string, tuple)
+    for _ in range(ctx.n(40, 800)):
+        p2 = rng.choice(["q", "w", "d2"])
+        first = rng.choice(["{'eta': e.eta}", "'none'", "(e.a, 1)", "{'b': 1}", "1.5", "{'a': e.x, 'pt': 2}"])
+        use = rng.choice([f"{p2}.pt", f"{p2}.eta", f"{p2}['a']", f"({p2} if {p2}.ok else 0)", f"{p2}.a", f"({p2}, e)[1].pt", f"{p2}"])
+        shape = rng.choice([
+            f"(lambda e, {p2}: {use})({first}, e)",
+            f"(lambda e, {p2}: {use})({p2}=e, e={first})",
+            f"(lambda d: (lambda d, {p2}: {use})({first}, d))({{'a': e.a}})",
+            f"(lambda d: (lambda d, {p2}: {use})(1, d))({{'a': e.a}})",
+            f"(lambda x, y: y if y.ok else 0)('none', e)",
+            f"(lambda e, {p2}: ({use}, e))({first}, e)",
+        ])
+        cases.append((rng.choice(["Select", "Select", "SelectMany", "Where"]), shape, rng.choice(["str", "ast"])))
     for i in range(0, len(cases), 300):
         typed_noise(rng)
         check_cases(ctx, cases[i : i + 300])
